@@ -1,6 +1,29 @@
 """Per-property manifest entries. Only properties with a working check appear in CHECKS."""
 
 CHECKS = {
+    "C05": {
+        "level": "exploration",
+        "technique": "hypothesis-generated def/call programs; reference interpreter with explicit buffer stack and caller frames",
+        "text": ("Programs with top-level and nested defs of every parameter kind, flags buffered / filter / decorator, plain calls, "
+                 "self./local. calls, capture(), concatenations, and calls with content (<%call>, <%self:def> with literal / ${} / mixed "
+                 "attributes, body args, nested defs, optional callers) nested to depth 4 inside bodies, defs, loops and other call "
+                 "bodies are rendered by mako and by the reference interpreter (clauses A1-A10); outputs or exception types must "
+                 "agree. Sampled (~1.8k programs quick, ~48k thorough). A fixed sub-check exercises the recorded known finding."),
+        "note": ("Trusted: vf/gen/tgen.py reference semantics, CPython. Excluded by construction: return inside buffered/filtered "
+                 "callables (known finding), bare-* / positional-only signatures, `caller` inside nested defs of a call tag."),
+    },
+    "C13": {
+        "level": "fault_enumeration",
+        "technique": "raise-point x handler-position enumeration over generated programs; reference interpreter with exceptions; stack-depth invariants",
+        "text": ("For each generated program that renders cleanly, every position of every body list is used as a raise point (one at "
+                 "a time, four raise kinds) and every wrappable node as a % try/% except handler; the reference decides which pairs "
+                 "catch, and those (bounded per subject by a fixed stride) plus unhandled raise points are executed in mako under "
+                 "render, render_context + write('tail'), error_handler->True, format_exceptions and a second render of the same "
+                 "Template. Output after the handler, the propagated exception object, buffer/caller stack depths must match the "
+                 "reference (clause A20). Enumeration is complete per subject up to the stated stride bounds."),
+        "note": ("Subjects are sampled (80 quick / ~1.9k thorough); per subject at most 20x12 (quick) / 40x24 (thorough) raise x handler "
+                 "pairs are classified by the reference and at most 24 / 60 handled + 4 / 10 unhandled points run in mako."),
+    },
     "C03": {
         "level": "exploration",
         "technique": "hypothesis-generated control-structure programs; reference interpreter with lexically managed loop object, native execution of embedded Python",
